@@ -1,18 +1,18 @@
 #!/bin/bash
-# bench.sh <patch.diff> <ID> [<ID>...]   (env: VERIF_RUNS, VERIF_SEED, BENCH_TIER)
+# bench.sh <patch.diff> <ID> [<ID>...]   (env: VERIF_RUNS, VERIF_SEED, BENCH_TIER, BENCH_DIR)
 # Sensitivity bench: applies a patch to a scratch worktree of /repo (outside /repo and /verif),
 # builds a scratch copy of the simulator against it and runs the named checks' quick tier there.
 # Prints one line per check: "<ID> exit=<code> <first VIOLATION/KNOWN/HARNESS line>".
 # Nothing in /repo or /verif is touched; the scratch tree is reverted afterwards.
 set -u
 PATCH="$(readlink -f "$1")"; shift
-B=/tmp/bench
+B=${BENCH_DIR:-/tmp/bench}
 export CARGO_NET_OFFLINE=true
 mkdir -p $B/out
 if [ ! -d $B/repo ]; then git -C /repo worktree add --detach $B/repo HEAD >/dev/null 2>&1 || exit 2; fi
 git -C $B/repo checkout -q -- . ; git -C $B/repo checkout -q --detach "$(git -C /repo rev-parse HEAD)"
 rsync -a --delete --exclude target /verif/sim/ $B/sim/
-sed -i 's#path = "/repo"#path = "/tmp/bench/repo"#' $B/sim/Cargo.toml
+sed -i "s#path = \"/repo\"#path = \"$B/repo\"#" $B/sim/Cargo.toml
 cp /verif/known_findings.txt $B/out/
 if [ "$PATCH" != "/dev/null" ]; then
   git -C $B/repo apply "$PATCH" || { echo "BENCH-ERROR patch does not apply"; exit 2; }
